@@ -347,6 +347,14 @@ next:
 				for n += nn; nn != 0 && clean && err == nil; n += nn {
 					nn, err, clean = streamTo(i, w)
 				}
+				if err != nil && clean { // the writer failed: skip the remaining chunks, they are still unread
+					for nn = 1; nn != 0 && clean; {
+						var err2 error
+						if nn, err2, clean = streamTo(i, io.Discard); err2 != nil {
+							clean = false
+						}
+					}
+				}
 			}
 			return n, err, clean
 		}
